@@ -110,7 +110,8 @@ def run_ns(case):
     """instants with nanosecond precision at a present-day epoch: every container that can carry them (pcapng with
     if_tsresol 9 in both byte orders and with offsets, legacy nanosecond pcap) must give the same export"""
     seed = case["seed"]
-    pkts, lines = base_capture("mixed", seed)
+    base_name = "mixed" if case["part"] % 2 == 0 else "quic"
+    pkts, lines = base_capture(base_name, seed)
     kl = "\n".join(lines) + "\n"
     rng = scen.rng_for(seed, "c12ns", case["part"])
     ends = None
@@ -139,7 +140,7 @@ def run_ns(case):
             outs.append((var, res))
         ref = outs[0][1]
         for var, res in outs:
-            sig = {"base": "mixed", "variant": dict(var, instants="nanosecond precision")}
+            sig = {"base": base_name, "variant": dict(var, instants="nanosecond precision")}
             if not res.ok:
                 fails.append({"kind": "run_failed", "sig": sig, "detail": res.status + res.detail[-200:]})
             elif res.out != ref.out:
